@@ -933,6 +933,18 @@ pub fn gen_fan_mapset(rng: &mut Rng, coll: Coll, pairs: bool, out: &mut Vec<Hist
             rest.remove(i);
         }
         probes(&mut ops, &rest);
+        // handles on what is left, then insertions (a handle on each new entry too): a slot that the
+        // removal put on the free list twice, or a live slot it freed, shows here
+        for k in rest.iter().take(24) {
+            ops.push(Op::M(MOp::Hold(*k)));
+        }
+        for j in 0..3 {
+            let nk = universe as i32 + 5 + j;
+            ops.push(Op::M(MOp::Ins(nk, 5000 + j as i64)));
+            ops.push(Op::M(MOp::Chk));
+            ops.push(Op::M(MOp::Hold(nk)));
+        }
+        ops.push(Op::M(MOp::Chk));
         out.push(mk(ops));
     }
     // every ORDERED PAIR of removals from the smaller states: whatever the first one leaves behind
@@ -973,22 +985,37 @@ pub fn gen_fan_mapset(rng: &mut Rng, coll: Coll, pairs: bool, out: &mut Vec<Hist
 /// queries before anything expires), then EVERY query kind for EVERY key at each of the times
 /// 5, 10, 15 and every insertion of an absent key, each on an independent copy of that state: each
 /// of them is the first operation to meet the expired entries
-pub fn gen_fan_key(rng: &mut Rng) -> History {
+pub fn gen_fan_key(rng: &mut Rng, out: &mut Vec<History>) {
     let universe: i32 = *rng.pick(&[24, 40, 64]);
     let n = rng.range(8, 40) as usize;
     let mut ops: Vec<Op> = Vec::new();
     let mut reference: BTreeMap<i32, i32> = BTreeMap::new();
     let mut val: i64 = 1;
     let far = 1_000_000;
-    let mix = rng.below(3);
+    let mix = rng.below(4);
+    // two states in five are sorted runs (ascending / descending insertion order), which give the
+    // all-black subtrees under which a removal repair climbs several levels
+    let run = rng.below(5);
+    let mut next_run: i32 = if run == 0 { 0 } else { universe - 1 };
     while reference.len() < n.min(universe as usize - 2) {
-        let k = rng.range(0, universe as i64 - 1) as i32;
+        let k = match run {
+            0 => {
+                next_run += 1;
+                next_run - 1
+            }
+            1 => {
+                next_run -= 1;
+                next_run + 1
+            }
+            _ => rng.range(0, universe as i64 - 1) as i32,
+        };
         if reference.contains_key(&k) {
             continue;
         }
         let e = match mix {
             0 => *rng.pick(&[5, 10, 15, far, far]),
             1 => *rng.pick(&[5, far, far, far]),
+            2 => if rng.chance(6) { 5 } else { far },
             _ => *rng.pick(&[5, 5, 10, 10, 15, far]),
         };
         reference.insert(k, e);
@@ -1016,5 +1043,239 @@ pub fn gen_fan_key(rng: &mut Rng) -> History {
         }
         ops.push(Op::Fork(Box::new(Op::K(KOp::Export(t)))));
     }
-    History { coll: Coll::KeyTree, params: vec![8], ops, twin: None, inject: None }
+    // two steps in a row from the same state (each pair its own history): an operation that purges or
+    // inserts, then the ordered export and a look-up - what the first one did to the arena, the free
+    // list or the order of the keys is seen by the second
+    let prefix_len = ops.iter().position(|o| matches!(o, Op::Fork(_))).unwrap_or(ops.len());
+    let prefix: Vec<Op> = ops[..prefix_len].to_vec();
+    let stored: Vec<i32> = reference.keys().copied().collect();
+    for t in [5, 10, 15] {
+        for _ in 0..8 {
+            let k = *rng.pick(&stored);
+            let mut o2 = prefix.clone();
+            o2.push(Op::K(match rng.below(3) {
+                0 => KOp::Get(t, k),
+                1 => KOp::LessEq(t, k),
+                _ => KOp::Less(t, k),
+            }));
+            o2.push(Op::K(KOp::Export(t)));
+            o2.push(Op::K(KOp::Get(t, k)));
+            out.push(History { coll: Coll::KeyTree, params: vec![8], ops: o2, twin: None, inject: None });
+        }
+        for _ in 0..8 {
+            let k = rng.range(0, universe as i64 - 1) as i32;
+            if reference.get(&k).map_or(true, |e| *e <= t) {
+                let mut o2 = prefix.clone();
+                o2.push(Op::K(KOp::Ins { k, e: far, v: 9000 + k as i64, t }));
+                o2.push(Op::K(KOp::Export(t)));
+                o2.push(Op::K(KOp::Get(t, k)));
+                o2.push(Op::K(KOp::LessEq(t, k)));
+                out.push(History { coll: Coll::KeyTree, params: vec![8], ops: o2, twin: None, inject: None });
+            }
+        }
+    }
+    out.push(History { coll: Coll::KeyTree, params: vec![8], ops, twin: None, inject: None });
+    // now and then a PERFECT tree: keys inserted level by level, the bottom level expires at 5, every
+    // expired entry is met by a look-up at time 10, with an export after each of them: the stored
+    // tree passes through the perfectly balanced all-black shapes
+    if rng.chance(15) {
+        let levels = *rng.pick(&[3u32, 4, 5]);
+        let n = (1i32 << levels) - 1;
+        let mut order: Vec<i32> = Vec::new();
+        for l in 0..levels {
+            let step = (n + 1) >> l;
+            let mut k = step / 2;
+            while k <= n {
+                order.push(k);
+                k += step;
+            }
+        }
+        let mut o3: Vec<Op> = Vec::new();
+        for (i, k) in order.iter().enumerate() {
+            let bottom = k % 2 == 1;
+            o3.push(Op::K(KOp::Ins { k: *k, e: if bottom { 5 } else { far }, v: *k as i64 + 1, t: 0 }));
+            let _ = i;
+        }
+        o3.push(Op::K(KOp::Export(0)));
+        let mut k = 1;
+        while k <= n {
+            o3.push(Op::K(KOp::Get(10, k)));
+            o3.push(Op::K(KOp::Export(10)));
+            k += 2;
+        }
+        o3.push(Op::K(KOp::Export(10)));
+        out.push(History { coll: Coll::KeyTree, params: vec![8], ops: o3, twin: None, inject: None });
+    }
+}
+
+/// panic injection into EVERY one-step continuation of a mid-size state: a state of 12..40 entries
+/// (an ascending / descending run, which makes the all-black subtrees under which a removal repair
+/// climbs several levels, or a random mix), then for every stored key the removal (set / map trees)
+/// or, for the expiring-key tree, a query at the time at which that key has expired, repeated with a
+/// panic injected at each user-callback invocation of that LAST operation
+pub fn gen_fan_inject(rng: &mut Rng, which: u64, out: &mut Vec<History>) {
+    // runs in ascending / descending order make the all-black subtrees under which a repair climbs
+    // several levels (three levels need 23 and more entries): they are half of the states
+    // the order cycles with the state number: every fourth state is an ascending run of 30, every
+    // fourth a descending one, the others random mixes of 12..36
+    let (n, order) = match (which / 3) % 4 {
+        0 => (30usize, 0),
+        1 => (30usize, 1),
+        _ => (rng.range(12, 36) as usize, 2 + rng.below(2)),
+    };
+    let keys: Vec<i32> = match order {
+        0 => (1..=n as i32).collect(),
+        1 => (1..=n as i32).rev().collect(),
+        2 => (1..=n as i32).map(|i| if i % 2 == 0 { i / 2 } else { n as i32 + 1 - (i + 1) / 2 }).collect(),
+        _ => shuffled(rng, n, 1).into_iter().map(|k| k + 1).collect(),
+    };
+    let limit_per_state = 400usize;
+    let mut emitted = 0usize;
+    match which % 3 {
+        0 | 1 => {
+            let coll = if which % 3 == 0 { Coll::SetTree } else { Coll::MapTree };
+            let mut prefix: Vec<Op> = keys.iter().map(|k| Op::M(MOp::Ins(*k, *k as i64 + 100))).collect();
+            // a few removals so that the shape is not only what insertions make
+            let mut present = keys.clone();
+            for _ in 0..rng.below(4) {
+                let idx = rng.below(present.len() as u64) as usize;
+                prefix.push(Op::M(MOp::Del(present.remove(idx))));
+            }
+            let (_, c0) = crate::exec::run_silent(&History { coll, params: vec![8], ops: prefix.clone(), twin: None, inject: None });
+            let mut order = present.clone();
+            order.sort();
+            for k in order {
+                let mut ops = prefix.clone();
+                ops.push(Op::M(MOp::Del(k)));
+                let h = History { coll, params: vec![8], ops, twin: None, inject: None };
+                let (_, c1) = crate::exec::run_silent(&h);
+                for idx in c0..c1 {
+                    if emitted >= limit_per_state {
+                        break;
+                    }
+                    let mut hk = h.clone();
+                    // after the interrupted removal: look at everything
+                    for q in present.iter().step_by(3) {
+                        hk.ops.push(Op::M(MOp::Get(*q)));
+                    }
+                    hk.inject = Some(idx);
+                    out.push(hk);
+                    emitted += 1;
+                }
+            }
+        }
+        _ => {
+            // expiring-key tree: EVERY key in turn is the one that has expired (at 5) when the last
+            // operation (a look-up of that key at time 10, or an insertion) runs; the others live on
+            let limit_per_state = 1500usize;
+            for x in keys.iter() {
+                let prefix: Vec<Op> = keys
+                    .iter()
+                    .map(|k| Op::K(KOp::Ins { k: *k, e: if k == x { 5 } else { 90 }, v: *k as i64 * 10, t: 0 }))
+                    .collect();
+                let (_, c0) = crate::exec::run_silent(&History { coll: Coll::KeyTree, params: vec![8], ops: prefix.clone(), twin: None, inject: None });
+                for kind in 0..2 {
+                    let mut ops = prefix.clone();
+                    ops.push(Op::K(match kind {
+                        0 => KOp::Get(10, *x),
+                        _ => KOp::LessEq(10, *x),
+                    }));
+                    let h = History { coll: Coll::KeyTree, params: vec![8], ops, twin: None, inject: None };
+                    let (_, c1) = crate::exec::run_silent(&h);
+                    for idx in c0..c1 {
+                        if emitted >= limit_per_state {
+                            break;
+                        }
+                        let mut hk = h.clone();
+                        for q in keys.iter().step_by(3) {
+                            hk.ops.push(Op::K(KOp::Get(45, *q)));
+                        }
+                        hk.ops.push(Op::K(KOp::Ins { k: 2000, e: 90, v: 8, t: 45 }));
+                        hk.ops.push(Op::K(KOp::Get(45, 2000)));
+                        hk.ops.push(Op::K(KOp::Export(45)));
+                        hk.inject = Some(idx);
+                        out.push(hk);
+                        emitted += 1;
+                    }
+                }
+            }
+        }
+    }
+}
+
+/// segment tree: a DENSE state (one to three values stored exactly at almost every place of the heap,
+/// so that every chunk on every root-to-leaf path is occupied; expirations below / at / above the
+/// query times; a few values spread over several places), then, for a few query ranges, a first query
+/// dropped after EVERY possible number of values, a second query at the same or a later time, and a
+/// whole-domain query.  Each combination is its own history.
+pub fn gen_fan_seg(rng: &mut Rng, out: &mut Vec<History>) {
+    let (lo, bits): (i64, u32) = *rng.pick(&[(0, 5), (0, 6), (-16, 5), (100, 5)]);
+    let len: i64 = 1 << bits;
+    let hi = lo + len - 1;
+    let far = 1_000_000;
+    let mut prefix: Vec<Op> = Vec::new();
+    let mut id: i64 = 1;
+    let levels = 6u32.min(bits + 1);
+    // variant B: everything on the path to the focus outlives the second query (25) while the value
+    // spread over several places that ends AT the focus (inserted first below) dies at 20
+    let variant_b = rng.chance(50);
+    let focus = lo + rng.range(1, len - 1); // the path to this point is the most densely occupied
+    let mut spread: Vec<(i64, i64)> = Vec::new();
+    if variant_b {
+        let a = (focus - rng.range(1, 3)).max(lo);
+        prefix.push(Op::S(SOp::Ins { a, b: focus, id, e: 20 }));
+        spread.push((a, focus));
+        id += 1;
+    }
+    for l in 0..levels {
+        let w = len >> l;
+        if w == 0 {
+            break;
+        }
+        for j in 0..(1i64 << l) {
+            let on_path = lo + j * w <= focus && focus <= lo + (j + 1) * w - 1;
+            let copies = if on_path { rng.range(1, 3) } else if rng.chance(60) { 1 } else { 0 };
+            for _ in 0..copies {
+                let e = if variant_b && on_path { *rng.pick(&[30, far, far, 3]) } else { *rng.pick(&[3, 10, 10, 20, 30, far]) };
+                prefix.push(Op::S(SOp::Ins { a: lo + j * w, b: lo + (j + 1) * w - 1, id, e }));
+                id += 1;
+            }
+        }
+    }
+    for _ in 0..rng.range(2, 6) {
+        let a = lo + rng.range(0, len - 1);
+        let b = (a + rng.range(1, len / 2)).min(hi);
+        let e = *rng.pick(&[3, 10, 20, 20, 30, far]);
+        prefix.push(Op::S(SOp::Ins { a, b, id, e }));
+        spread.push((a, b));
+        id += 1;
+    }
+    if rng.chance(40) {
+        prefix.push(Op::S(SOp::Query { a: lo, b: hi, t: *rng.pick(&[2, 5]), n: -1 }));
+    }
+    let near = (focus + rng.range(1, 3)).min(hi);
+    let mut ranges: Vec<(i64, i64)> = vec![(focus, focus), (focus, near), (lo, hi), (lo + rng.range(0, len / 2), lo + len / 2 + rng.range(0, len / 2 - 1))];
+    // the first query may also be exactly the range of a value stored at several places, the second
+    // one its last (or first) point only
+    let (sa, sb) = if variant_b { spread[0] } else { *rng.pick(&spread) };
+    ranges.push((sa, sb));
+    let t1 = 10;
+    for (a1, b1) in &ranges {
+        // how many values the complete first query yields on the implementation
+        let mut probe = prefix.clone();
+        probe.push(Op::S(SOp::Query { a: *a1, b: *b1, t: t1, n: -1 }));
+        let (text, _) = crate::exec::run_answers(&History { coll: Coll::Seg, params: vec![lo, hi], ops: probe, twin: None, inject: None });
+        let total = text.split_whitespace().count() as i64;
+        for n1 in (0..=total.min(24)).chain(std::iter::once(-1)) {
+            for (a2, b2) in [(*a1, *b1), (focus, focus), (lo, hi), (*b1, *b1), (*a1, *a1)] {
+                for t2 in [t1, 25] {
+                    let mut ops = prefix.clone();
+                    ops.push(Op::S(SOp::Query { a: *a1, b: *b1, t: t1, n: n1 }));
+                    ops.push(Op::S(SOp::Query { a: a2, b: b2, t: t2, n: -1 }));
+                    ops.push(Op::S(SOp::Query { a: lo, b: hi, t: t2, n: -1 }));
+                    out.push(History { coll: Coll::Seg, params: vec![lo, hi], ops, twin: None, inject: None });
+                }
+            }
+        }
+    }
 }
